@@ -22,6 +22,12 @@ for name, patch, checks, rev, summary in entries:
         continue
     out = run(patch, checks, rev)
     caught = [l for l in out if " rc=1 " in l]
+    mp = os.path.join(HERE, "seeded", name, "meta.json")
+    if os.path.exists(mp):
+        m = json.load(open(mp))
+        m["caught_by"] = [l.split()[0] for l in caught]
+        m["not_caught_by"] = [l.split()[0] for l in out if " rc=0 " in l or " rc=2 " in l]
+        json.dump(m, open(mp, "w"), indent=1)
     rows.append((name, summary, checks, out, bool(caught)))
     print(name, "CAUGHT" if caught else "MISSED", "|", "; ".join(out)[:300], flush=True)
 with open(os.path.join(HERE, "seeded", "RESULTS.md"), "a") as f:
